@@ -29,7 +29,7 @@
 #include <fcntl.h>
 
 extern "C" void __sanitizer_set_death_callback(void (*cb)(void));
-extern "C" int __lsan_do_recoverable_leak_check(void);
+extern "C" int __lsan_do_recoverable_leak_check(void) __attribute__((weak));   // absent under ThreadSanitizer
 extern "C" void __lsan_disable(void);
 extern "C" void __lsan_enable(void);
 
@@ -246,7 +246,7 @@ inline std::string run_case(const PropDef &pd, const uint8_t *data, size_t len, 
     catch (const Fail &f) { sig = f.sig.empty() ? "fail" : f.sig; if (detail) *detail = f.detail; }
     catch (const Discard &) { if (discarded) *discarded = true; }
     if (pd.case_timeout) alarm(0);
-    if (sig.empty() && leak_check_interval() && (force_leak_check() || (++d.leak_ctr % leak_check_interval()) == 0)) {
+    if (sig.empty() && __lsan_do_recoverable_leak_check && leak_check_interval() && (force_leak_check() || (++d.leak_ctr % leak_check_interval()) == 0)) {
         if (__lsan_do_recoverable_leak_check()) { sig = "lsan:leak-after-case"; if (detail) *detail = "LeakSanitizer found memory leaked by this case (see log for allocation stacks)"; }
     }
     return sig;
